@@ -91,6 +91,9 @@ def is_cmd_log(name):
         or name.startswith("dclab%2Dcompress")
 
 
+OWN_WARNING_LOGS = ("dclab-compress-warnings", "dclab-condense-warnings")
+
+
 def compare_items(model, actual, cmd_logs_free=True, ignore_attr_keys=()):
     """fieldwise comparison of the model's items with the actual output; returns differences"""
     diffs = []
@@ -109,6 +112,13 @@ def compare_items(model, actual, cmd_logs_free=True, ignore_attr_keys=()):
                 and key in model and key in actual:
             continue
         if key not in model:
+            if key[0] == "L" and cmd_logs_free and key[1].replace("%2D", "-") in OWN_WARNING_LOGS:
+                # the task's own warnings log: written whenever *any* warning is recorded in the
+                # process while the task runs (catch_warnings(record=True) + simplefilter("always")
+                # also records e.g. a ResourceWarning of an object the garbage collector happens to
+                # finalise inside that window), so its presence is not a function of the input.
+                # It belongs to the "added command log" the property exempts.
+                continue
             diffs.append(("extra in output", key))
             continue
         if key not in actual:
@@ -319,6 +329,17 @@ def one_case(ctx, idx, spec, lines, expects):
         if err is None:
             exp["out_items"] = out_items
             exp["out_path"] = None
+            try:    # the task's own warnings log is environment dependent: keep a record of it
+                import h5py
+                with h5py.File(out, "r") as ho:
+                    for wl in OWN_WARNING_LOGS:
+                        if wl in ho.get("logs", {}):
+                            txt = " | ".join(x.decode(errors="replace") if isinstance(x, bytes)
+                                             else str(x) for x in ho["logs"][wl][:6])
+                            ctx.stats["own_warnings_logs"] = ctx.stats.get("own_warnings_logs", 0) + 1
+                            ctx.stats.setdefault("own_warnings_sample", txt[:300])
+            except Exception:  # noqa
+                pass
             if second_of is None:
                 cd = content_diff(src_items, out_items, flags, strip_basins=strip[0],
                                   strip_logs=strip[1], scalar_only=(task == "condense"),
